@@ -787,11 +787,13 @@ func sweepC19Totals(c *core.Ctx) {
 // batch (their sum overflows), the largest finite value, subnormals, negative zero vs zero
 // (equal), in every partition of the same data.
 func extremeLabelsC19(c *core.Ctx) {
-	P := []float64{1e308, 1.5e308, -1.7e308, math.MaxFloat64, 5e-324, 0, 1e308, -1e308, 2, 1.7e308}
-	T := []float64{1e308, 1.5e308, -1.7e308, math.MaxFloat64, 5e-324, math.Copysign(0, -1), 1.1e308, 1e308, 2, 1.7e308}
+	// (positions 10..12: labels closer than the library's equality tolerance 1e-240 count as equal,
+	// as for Eq / Equals, in EVERY partition - also in a batch of one)
+	P := []float64{1e308, 1.5e308, -1.7e308, math.MaxFloat64, 5e-324, 0, 1e308, -1e308, 2, 1.7e308, 1e-300, -4e-280, 3e-250}
+	T := []float64{1e308, 1.5e308, -1.7e308, math.MaxFloat64, 5e-324, math.Copysign(0, -1), 1.1e308, 1e308, 2, 1.7e308, 0, 4e-280, 0}
 	want := 0
 	for i := range P {
-		if P[i] == T[i] {
+		if math.Abs(P[i]-T[i]) <= ref.EqTolerance {
 			want++
 		}
 	}
